@@ -1,2 +1,4 @@
-/- C07 — strand rotation is a structure-preserving relabelling: theorems are in Props/C07Rot.lean. -/
+/- C07 — strand rotation is a structure-preserving relabelling: theorems are in Props/C07Rot.lean (list positions)
+   and Props/C07Loci.lean (pair tables over loci, rotate_pairtable_loc, connectivity). -/
 import DsdVerif.Props.C07Rot
+import DsdVerif.Props.C07Loci
